@@ -301,9 +301,16 @@ impl DoubleEndedIterator for OffsetsBase {
             return None;
         }
 
+        // Linear index of the next element that would be yielded from the
+        // front. The last remaining element is `len - 1` elements after it.
+        let front_index = (0..self.ndim()).fold(0, |index, dim| {
+            let pos = self.pos(dim);
+            index * pos.size() + pos.index()
+        });
+
         // This is inefficient compared to forward iteration, but that's OK
         // because reverse iteration is not performance critical.
-        let index = self.len - 1;
+        let index = front_index + self.len - 1;
         let offset = self.offset_from_linear_index(index);
         self.len -= 1;
 
